@@ -233,8 +233,9 @@ Qed.
 Lemma mgo_no_crash group nq : most_general_observable group nq <> Crashed.
 Proof.
   unfold most_general_observable. destruct group as [|f rest]; [discriminate|].
-  match goal with |- res_map _ ?x <> _ => pose proof (mgo_loop_no_crash _ (f :: rest) (repeat 0 (match nq with Some k => k | None => length (plets f) end))) as H; destruct x end;
-    simpl; congruence.
+  set (n := match nq with Some k => k | None => length (plets f) end).
+  pose proof (mgo_loop_no_crash n (f :: rest) (repeat 0 n)) as H.
+  destruct (mgo_loop n (repeat 0 n) (f :: rest)); simpl; congruence.
 Qed.
 
 (* acceptance criterion *)
@@ -249,4 +250,535 @@ Proof.
     destruct (C a i Ha) as [Ea|Ea]; [now left|].
     destruct (C b i Hb) as [Eb|Eb]; [right; now left|]. right; right. congruence.
   - intros (NE & W & PW). now apply mgo_total.
+Qed.
+
+(* ---------- nonid_positions ---------- *)
+Definition nonid (lets : list letter) (q : nat) : bool := negb (Nat.eqb (nth q lets 0) 0).
+
+Lemma nonid_true lets q : nonid lets q = true <-> nth q lets 0 <> 0.
+Proof. unfold nonid. rewrite negb_true_iff, Nat.eqb_neq. tauto. Qed.
+
+Lemma filter_nonid_shift l r s :
+  filter (nonid (l :: r)) (map S s) = map S (filter (nonid r) s).
+Proof.
+  induction s as [|x s IHs]; [reflexivity|].
+  cbn [map filter]. rewrite IHs.
+  replace (nonid (l :: r) (S x)) with (nonid r x) by reflexivity.
+  destruct (nonid r x); reflexivity.
+Qed.
+
+Lemma nonid_from_filter : forall lets i,
+  nonid_from i lets = map (fun k => i + k) (filter (nonid lets) (seq 0 (length lets))).
+Proof.
+  induction lets as [|l r IH]; intros i; [reflexivity|].
+  cbn [nonid_from length seq filter]. rewrite <- seq_shift, filter_nonid_shift, IH.
+  assert (E2 : map (fun k => S i + k) (filter (nonid r) (seq 0 (length r)))
+             = map (fun k => i + k) (map S (filter (nonid r) (seq 0 (length r))))).
+  { rewrite map_map. apply map_ext. intros; lia. }
+  replace (nonid (l :: r) 0) with (negb (Nat.eqb l 0)) by reflexivity.
+  destruct (Nat.eqb l 0); cbn [negb map]; [|rewrite Nat.add_0_r; f_equal]; exact E2.
+Qed.
+
+(* pauli_indices = the ascending non-identity positions *)
+Lemma nonid_positions_filter lets :
+  nonid_positions lets = filter (nonid lets) (seq 0 (length lets)).
+Proof. unfold nonid_positions. rewrite nonid_from_filter. rewrite <- map_id. apply map_ext. intros; lia. Qed.
+
+Lemma nonid_positions_In lets q :
+  In q (nonid_positions lets) <-> q < length lets /\ nth q lets 0 <> 0.
+Proof.
+  rewrite nonid_positions_filter, filter_In, in_seq, nonid_true. split; intros [H1 H2]; split; auto; lia.
+Qed.
+
+Lemma filter_seq_sorted f a n : StronglySorted lt (filter f (seq a n)).
+Proof.
+  revert a; induction n as [|n IH]; intros a; simpl; [constructor|].
+  destruct (f a); [|apply IH]. constructor; [apply IH|].
+  apply Forall_forall. intros x Hx. apply filter_In in Hx as [Hx _]. apply in_seq in Hx. lia.
+Qed.
+
+Lemma nonid_positions_sorted lets : StronglySorted lt (nonid_positions lets).
+Proof. rewrite nonid_positions_filter. apply filter_seq_sorted. Qed.
+
+Lemma sorted_lt_NoDup l : StronglySorted lt l -> NoDup l.
+Proof.
+  induction 1 as [|x l S IH F]; constructor; auto.
+  intros Hin. rewrite Forall_forall in F. specialize (F x Hin). lia.
+Qed.
+
+Lemma nonid_positions_NoDup lets : NoDup (nonid_positions lets).
+Proof. apply sorted_lt_NoDup, nonid_positions_sorted. Qed.
+
+(* ---------- masks ---------- *)
+Lemma testbit_pow2 i k : N.testbit (N.shiftl 1 (N.of_nat i)) (N.of_nat k) = Nat.eqb i k.
+Proof.
+  rewrite N.shiftl_1_l, N.pow2_bits_eqb.
+  destruct (Nat.eqb_spec i k) as [->|Hn]; [apply N.eqb_refl|].
+  apply N.eqb_neq. intros E. apply Nat2N.inj in E. contradiction.
+Qed.
+
+Lemma mask_from_spec lets : forall idx i v,
+  mask_from i lets idx = Some v ->
+  (forall t, t < length idx -> nth t idx 0 < length lets) /\
+  forall k, N.testbit v (N.of_nat k) = true <->
+            exists t, k = i + t /\ t < length idx /\ nth (nth t idx 0) lets 0 <> 0.
+Proof.
+  induction idx as [|j r IH]; intros i v H; cbn [mask_from] in H.
+  - inversion H; subst. split; [intros t Ht; simpl in Ht; lia|].
+    intros k. rewrite N.bits_0. split; [discriminate|]. intros [t [_ [Ht _]]]. simpl in Ht; lia.
+  - destruct (Nat.ltb_spec j (length lets)) as [Hj|Hj]; [|discriminate].
+    destruct (mask_from (S i) lets r) as [v'|] eqn:E; cbn [option_map] in H; [|discriminate].
+    destruct (IH (S i) v' E) as [B IHk]. split.
+    { intros [|t] Ht; simpl in *; [assumption|apply B; lia]. }
+    intros k.
+    assert (REST : N.testbit v' (N.of_nat k) = true <->
+                   exists t, k = i + S t /\ t < length r /\ nth (nth t r 0) lets 0 <> 0).
+    { rewrite IHk. split; intros [t [E1 E2]]; exists t; split; auto; lia. }
+    assert (Hv : v = if Nat.eqb (nth j lets 0) 0 then v' else N.lor (N.shiftl 1 (N.of_nat i)) v') by congruence.
+    clear H. subst v.
+    destruct (Nat.eqb_spec (nth j lets 0) 0) as [Ez|Nz].
+    + rewrite REST. split.
+      * intros [t [E1 [E2 E3]]]. exists (S t). simpl. repeat split; auto; lia.
+      * intros [[|t] [E1 [E2 E3]]]; simpl in *; [congruence|]. exists t. repeat split; auto; lia.
+    + rewrite N.lor_spec, orb_true_iff, testbit_pow2, Nat.eqb_eq, REST. split.
+      * intros [Ek|[t [E1 [E2 E3]]]].
+        -- exists 0. simpl. repeat split; auto; lia.
+        -- exists (S t). simpl. repeat split; auto; lia.
+      * intros [[|t] [E1 [E2 E3]]]; simpl in *.
+        -- left; lia.
+        -- right. exists t. repeat split; auto; lia.
+Qed.
+
+Lemma mask_of_spec lets idx v :
+  mask_of lets idx = Some v ->
+  forall k, N.testbit v (N.of_nat k) = true <-> k < length idx /\ nth (nth k idx 0) lets 0 <> 0.
+Proof.
+  intros H k. destruct (mask_from_spec lets idx 0 v H) as [_ S]. rewrite S. split.
+  - intros [t [-> [H1 H2]]]. simpl. auto.
+  - intros [H1 H2]. exists k. auto.
+Qed.
+
+Lemma mask_from_total lets : forall idx i,
+  (forall j, In j idx -> j < length lets) -> exists v, mask_from i lets idx = Some v.
+Proof.
+  induction idx as [|j r IH]; intros i B; simpl; [eexists; reflexivity|].
+  destruct (Nat.ltb_spec j (length lets)) as [Hj|Hj].
+  - destruct (IH (S i)) as [v' E]. { intros x Hx; apply B; now right. }
+    rewrite E; simpl. eexists; reflexivity.
+  - specialize (B j (or_introl eq_refl)). lia.
+Qed.
+
+Lemma masks_loop_spec idx : forall members masks,
+  masks_loop idx members = Ok masks ->
+  length masks = length members /\
+  forall j m, nth_error members j = Some m ->
+    pphase m = 0 /\ exists v, nth_error masks j = Some v /\ mask_of (plets m) idx = Some v.
+Proof.
+  induction members as [|m r IH]; intros masks H; simpl in H.
+  - inversion H; subst. split; [reflexivity|]. intros [|j] x Hx; discriminate.
+  - destruct (Nat.eqb_spec (pphase m) 0) as [Ep|Np]; simpl in H; [|discriminate].
+    destruct (mask_of (plets m) idx) as [v|] eqn:Ev; [|discriminate].
+    destruct (masks_loop idx r) as [vs| |] eqn:Er; simpl in H; try discriminate.
+    inversion H; subst masks; clear H.
+    destruct (IH vs eq_refl) as [L S]. split; [simpl; now rewrite L|].
+    intros [|j] x Hx; simpl in Hx.
+    + inversion Hx; subst x. split; [assumption|]. exists v. split; [reflexivity|assumption].
+    + apply (S j x Hx).
+Qed.
+
+Lemma masks_loop_total idx : forall members,
+  (forall m, In m members -> pphase m = 0) ->
+  (forall m j, In m members -> In j idx -> j < length (plets m)) ->
+  exists masks, masks_loop idx members = Ok masks.
+Proof.
+  induction members as [|m r IH]; intros Ph B; simpl; [eexists; reflexivity|].
+  rewrite (Ph m (or_introl eq_refl)); simpl.
+  destruct (mask_from_total (plets m) idx 0) as [v Ev]. { intros j Hj. apply (B m j); [now left|assumption]. }
+  unfold mask_of. rewrite Ev.
+  destruct IH as [vs Evs]. { intros x Hx; apply Ph; now right. } { intros x j Hx Hj; apply (B x j); [now right|assumption]. }
+  rewrite Evs; simpl. eexists; reflexivity.
+Qed.
+
+(* a member with a phase is refused (when no earlier member crashes: all members at least as wide as needed) *)
+Lemma masks_loop_refuses idx : forall members,
+  (forall m j, In m members -> In j idx -> j < length (plets m)) ->
+  (exists m, In m members /\ pphase m <> 0) ->
+  masks_loop idx members = Refused.
+Proof.
+  induction members as [|m r IH]; intros B [x [Hx Px]]; simpl; [contradiction|].
+  destruct (Nat.eqb_spec (pphase m) 0) as [Ep|Np]; simpl; [|reflexivity].
+  destruct (mask_from_total (plets m) idx 0) as [v Ev]. { intros j Hj. apply (B m j); [now left|assumption]. }
+  unfold mask_of. rewrite Ev.
+  rewrite IH; [reflexivity| |].
+  - intros y j Hy Hj; apply (B y j); [now right|assumption].
+  - destruct Hx as [<-|Hx]; [congruence|]. exists x; split; assumption.
+Qed.
+
+(* ---------- cog_post_init ---------- *)
+Lemma cog_post_init_spec g members idx masks :
+  cog_post_init g members = Ok (idx, masks) ->
+  idx = filter (nonid (plets g)) (seq 0 (length (plets g))) /\
+  StronglySorted lt idx /\
+  (forall q, In q idx <-> q < length (plets g) /\ nth q (plets g) 0 <> 0) /\
+  length masks = length members /\
+  forall j m, nth_error members j = Some m ->
+    pphase m = 0 /\
+    exists v, nth_error masks j = Some v /\ mask_of (plets m) idx = Some v /\
+    forall i, N.testbit v (N.of_nat i) = true <-> i < length idx /\ nth (nth i idx 0) (plets m) 0 <> 0.
+Proof.
+  unfold cog_post_init. destruct (masks_loop _ members) as [ms| |] eqn:E; simpl; try discriminate.
+  intros H; inversion H; subst idx masks; clear H.
+  split; [apply nonid_positions_filter|]. split; [apply nonid_positions_sorted|].
+  split; [apply nonid_positions_In|].
+  destruct (masks_loop_spec _ _ _ E) as [L S]. split; [assumption|].
+  intros j m Hm. destruct (S j m Hm) as [Ph [v [Hv Mv]]]. split; [assumption|].
+  exists v. split; [assumption|]. split; [assumption|]. apply mask_of_spec; assumption.
+Qed.
+
+Lemma cog_post_init_total g members :
+  (forall m, In m members -> pphase m = 0 /\ length (plets m) = length (plets g)) ->
+  exists idx masks, cog_post_init g members = Ok (idx, masks).
+Proof.
+  intros H. unfold cog_post_init.
+  destruct (masks_loop_total (nonid_positions (plets g)) members) as [ms E].
+  - intros m Hm. apply H; assumption.
+  - intros m j Hm Hj. apply nonid_positions_In in Hj as [Hj _]. destruct (H m Hm) as [_ L]. lia.
+  - rewrite E. simpl. eexists; eexists; reflexivity.
+Qed.
+
+Lemma cog_post_init_refuses g members :
+  (forall m, In m members -> length (plets m) = length (plets g)) ->
+  (exists m, In m members /\ pphase m <> 0) ->
+  cog_post_init g members = Refused.
+Proof.
+  intros W Ex. unfold cog_post_init. rewrite masks_loop_refuses; [reflexivity| |assumption].
+  intros m j Hm Hj. apply nonid_positions_In in Hj as [Hj _]. rewrite (W m Hm). assumption.
+Qed.
+
+(* ---------- generals / cogs ---------- *)
+Lemma generals_loop_spec : forall groups gens,
+  generals_loop groups = Ok gens ->
+  length gens = length groups /\
+  forall i g, nth_error groups i = Some g ->
+    exists p, nth_error gens i = Some p /\ most_general_observable g None = Ok p.
+Proof.
+  induction groups as [|g r IH]; intros gens H; simpl in H.
+  - inversion H; subst. split; [reflexivity|]. intros [|i] x Hx; discriminate.
+  - destruct (most_general_observable g None) as [p| |] eqn:Ep; simpl in H; try discriminate.
+    destruct (generals_loop r) as [ps| |] eqn:Er; simpl in H; try discriminate.
+    inversion H; subst gens; clear H. destruct (IH ps eq_refl) as [L S].
+    split; [simpl; now rewrite L|].
+    intros [|i] x Hx; simpl in Hx.
+    + inversion Hx; subst x. exists p. split; [reflexivity|assumption].
+    + apply (S i x Hx).
+Qed.
+
+Lemma cogs_loop_spec : forall gens groups cogs,
+  cogs_loop gens groups = Ok cogs -> length gens = length groups ->
+  map cg_members cogs = groups /\ map cg_general cogs = gens /\
+  forall c, In c cogs -> cog_post_init (cg_general c) (cg_members c) = Ok (cg_indices c, cg_masks c).
+Proof.
+  induction gens as [|p pr IH]; intros [|g gr] cogs H L; simpl in H, L; try discriminate.
+  - inversion H; subst. repeat split; auto. intros c [].
+  - unfold make_cog in H.
+    destruct (cog_post_init p g) as [[ix mk]| |] eqn:Ec; simpl in H; try discriminate.
+    destruct (cogs_loop pr gr) as [cs| |] eqn:Er; simpl in H; try discriminate.
+    inversion H; subst cogs; clear H.
+    destruct (IH gr cs Er ltac:(lia)) as (M1 & M2 & M3).
+    simpl. rewrite M1, M2. repeat split; auto.
+    intros c [<-|Hc]; [simpl; assumption|apply M3; assumption].
+Qed.
+
+(* ---------- lookup ---------- *)
+Definition located (l : lookup_t) (p : pauli) (ij : nat * nat) : Prop :=
+  exists locs, In (p, locs) l /\ In ij locs.
+
+Lemma lookup_add_keys p ij : forall l q, In q (map fst (lookup_add p ij l)) <-> In q (map fst l) \/ q = p.
+Proof.
+  induction l as [|[p' locs] r IH]; intros q; simpl.
+  - intuition.
+  - destruct (pauli_beq p p') eqn:E; simpl.
+    + apply pauli_beq_eq in E. subst p'. intuition.
+    + rewrite IH. intuition.
+Qed.
+
+Lemma lookup_add_NoDup p ij : forall l, NoDup (map fst l) -> NoDup (map fst (lookup_add p ij l)).
+Proof.
+  induction l as [|[p' locs] r IH]; intros ND; simpl.
+  - constructor; [intros []|constructor].
+  - inversion ND as [|? ? Hn ND']; subst.
+    destruct (pauli_beq p p') eqn:E; simpl.
+    + constructor; assumption.
+    + constructor; [|apply IH; assumption].
+      rewrite lookup_add_keys. intros [H|H]; [contradiction|].
+      apply pauli_beq_neq in E. congruence.
+Qed.
+
+Lemma lookup_add_located p ij : forall l q ij',
+  located (lookup_add p ij l) q ij' <-> located l q ij' \/ (q = p /\ ij' = ij).
+Proof.
+  unfold located. induction l as [|[p' locs] r IH]; intros q ij'; simpl.
+  - split.
+    + intros [ls [[H|[]] Hin]]. inversion H; subst. destruct Hin as [<-|[]]. right; auto.
+    + intros [[ls [[] _]]|[-> ->]]. exists [ij]. split; [now left|now left].
+  - destruct (pauli_beq p p') eqn:E.
+    + apply pauli_beq_eq in E. subst p'. split.
+      * intros [ls [[H|H] Hin]].
+        -- inversion H; subst. apply in_app_or in Hin as [Hin|[<-|[]]].
+           ++ left. exists locs. split; [now left|assumption].
+           ++ right; auto.
+        -- left. exists ls. split; [now right|assumption].
+      * intros [[ls [[H|H] Hin]]|[-> ->]].
+        -- inversion H; subst. exists (ls ++ [ij]). split; [now left|apply in_or_app; now left].
+        -- exists ls. split; [now right|assumption].
+        -- exists (locs ++ [ij]). split; [now left|apply in_or_app; right; now left].
+    + split.
+      * intros [ls [[H|H] Hin]].
+        -- left. exists ls. split; [now left|assumption].
+        -- destruct (proj1 (IH q ij')) as [[ls' [H1 H2]]|H3].
+           { exists ls. split; assumption. }
+           ++ left. exists ls'. split; [now right|assumption].
+           ++ right; assumption.
+      * intros [[ls [[H|H] Hin]]|H3].
+        -- exists ls. split; [now left|assumption].
+        -- destruct (proj2 (IH q ij')) as [ls' [H1 H2]].
+           { left. exists ls. split; assumption. }
+           exists ls'. split; [now right|assumption].
+        -- destruct (proj2 (IH q ij')) as [ls' [H1 H2]]; [right; assumption|].
+           exists ls'. split; [now right|assumption].
+Qed.
+
+Lemma lookup_add_nonempty p ij : forall l,
+  (forall q ls, In (q, ls) l -> ls <> []) -> forall q ls, In (q, ls) (lookup_add p ij l) -> ls <> [].
+Proof.
+  induction l as [|[p' locs] r IH]; intros NE q ls; simpl.
+  - intros [H|[]]. inversion H. discriminate.
+  - destruct (pauli_beq p p'); intros [H|H].
+    + inversion H; subst. intros E. apply app_eq_nil in E as [_ E]. discriminate.
+    + apply (NE q ls). now right.
+    + apply (NE q ls). now left.
+    + apply (IH (fun a b Hab => NE a b (or_intror Hab)) q ls H).
+Qed.
+
+Lemma lookup_group_spec i : forall members j l,
+  NoDup (map fst l) -> (forall q ls, In (q, ls) l -> ls <> []) ->
+  let l' := lookup_group i j members l in
+  NoDup (map fst l') /\ (forall q ls, In (q, ls) l' -> ls <> []) /\
+  forall q ij', located l' q ij' <->
+     located l q ij' \/ exists t, ij' = (i, j + t) /\ nth_error members t = Some q.
+Proof.
+  induction members as [|m r IH]; intros j l ND NE; simpl.
+  - split; [assumption|]. split; [assumption|]. intros q ij'. split; [now left|].
+    intros [H|[t [_ Ht]]]; [assumption|]. destruct t; discriminate.
+  - destruct (IH (S j) (lookup_add m (i, j) l)) as (ND' & NE' & S').
+    { apply lookup_add_NoDup; assumption. } { apply lookup_add_nonempty; assumption. }
+    split; [assumption|]. split; [assumption|].
+    intros q ij'. rewrite S', lookup_add_located. split.
+    + intros [[H|[-> ->]]|[t [-> Ht]]].
+      * now left.
+      * right. exists 0. split; [f_equal; lia|reflexivity].
+      * right. exists (S t). split; [f_equal; lia|assumption].
+    + intros [H|[[|t] [-> Ht]]].
+      * left; now left.
+      * simpl in Ht. inversion Ht; subst. left; right. split; [reflexivity|f_equal; lia].
+      * right. exists t. split; [f_equal; lia|assumption].
+Qed.
+
+Lemma lookup_groups_spec : forall cogs i l,
+  NoDup (map fst l) -> (forall q ls, In (q, ls) l -> ls <> []) ->
+  let l' := lookup_groups i cogs l in
+  NoDup (map fst l') /\ (forall q ls, In (q, ls) l' -> ls <> []) /\
+  forall q ij', located l' q ij' <->
+     located l q ij' \/
+     exists s c, fst ij' = i + s /\ nth_error cogs s = Some c /\ nth_error (cg_members c) (snd ij') = Some q.
+Proof.
+  induction cogs as [|c r IH]; intros i l ND NE; simpl.
+  - split; [assumption|]. split; [assumption|]. intros q ij'. split; [now left|].
+    intros [H|[s [c [_ [Hs _]]]]]; [assumption|]. destruct s; discriminate.
+  - destruct (lookup_group_spec i (cg_members c) 0 l ND NE) as (ND1 & NE1 & S1).
+    destruct (IH (S i) _ ND1 NE1) as (ND2 & NE2 & S2).
+    split; [assumption|]. split; [assumption|].
+    intros q ij'. rewrite S2, S1. split.
+    + intros [[H|[t [-> Ht]]]|[s [c' [E1 [E2 E3]]]]].
+      * now left.
+      * right. exists 0, c. simpl. repeat split; auto.
+      * right. exists (S s), c'. simpl. repeat split; auto; lia.
+    + intros [H|[[|s] [c' [E1 [E2 E3]]]]].
+      * left; now left.
+      * simpl in E2. inversion E2; subst c'. left; right. exists (snd ij').
+        split; [destruct ij' as [a b]; simpl in *; f_equal; lia|assumption].
+      * right. exists s, c'. simpl in E2. repeat split; auto; lia.
+Qed.
+
+Lemma lookup_find_In p : forall l locs,
+  NoDup (map fst l) -> (lookup_find p l = Some locs <-> In (p, locs) l).
+Proof.
+  induction l as [|[p' ls] r IH]; intros locs ND; simpl.
+  - split; [discriminate|intros []].
+  - inversion ND as [|? ? Hn ND']; subst.
+    destruct (pauli_beq p p') eqn:E.
+    + apply pauli_beq_eq in E. subst p'. split.
+      * intros H; inversion H; now left.
+      * intros [H|H]; [inversion H; reflexivity|].
+        exfalso. apply Hn. change p with (fst (p, locs)). now apply in_map.
+    + apply pauli_beq_neq in E. rewrite (IH locs ND'). split; [now right|].
+      intros [H|H]; [inversion H; congruence|assumption].
+Qed.
+
+(* ---------- the collection ---------- *)
+Lemma collection_spec obs o cogs lk :
+  collection obs o = Ok (cogs, lk) ->
+  obs <> [] /\
+  map cg_members cogs = o_groups o /\
+  (forall i c, nth_error cogs i = Some c ->
+     most_general_observable (cg_members c) None = Ok (cg_general c) /\
+     cog_post_init (cg_general c) (cg_members c) = Ok (cg_indices c, cg_masks c)) /\
+  NoDup (map fst lk) /\
+  (forall p locs, lookup_find p lk = Some locs -> locs <> []) /\
+  (forall p i j, (exists locs, lookup_find p lk = Some locs /\ In (i, j) locs) <->
+                 (exists c, nth_error cogs i = Some c /\ nth_error (cg_members c) j = Some p)).
+Proof.
+  unfold collection. destruct obs as [|o1 orest]; [discriminate|].
+  destruct (generals_loop (o_groups o)) as [gens| |] eqn:Eg; simpl; try discriminate.
+  destruct (cogs_loop gens (o_groups o)) as [cs| |] eqn:Ec; simpl; try discriminate.
+  intros H; inversion H; subst cogs lk; clear H.
+  destruct (generals_loop_spec _ _ Eg) as [Lg Sg].
+  destruct (cogs_loop_spec _ _ _ Ec Lg) as (M1 & M2 & M3).
+  destruct (lookup_groups_spec cs 0 []) as (ND & NE & SL); [constructor|intros ? ? []|].
+  split; [discriminate|]. split; [assumption|]. split; [|split; [assumption|split]].
+  - intros i c Hc. split; [|apply M3; eapply nth_error_In; eassumption].
+    assert (Hg : nth_error (o_groups o) i = Some (cg_members c)).
+    { rewrite <- M1. rewrite nth_error_map, Hc. reflexivity. }
+    destruct (Sg i _ Hg) as [p [Hp Hm]].
+    assert (Hp' : nth_error gens i = Some (cg_general c)).
+    { rewrite <- M2. rewrite nth_error_map, Hc. reflexivity. }
+    congruence.
+  - intros p locs Hf. apply (NE p locs). apply lookup_find_In; assumption.
+  - intros p i j. split.
+    + intros [locs [Hf Hin]].
+      assert (HL : located (lookup_groups 0 cs []) p (i, j)).
+      { exists locs. split; [apply lookup_find_In; assumption|assumption]. }
+      apply SL in HL as [[ls [[] _]]|[s [c [E1 [E2 E3]]]]]. simpl in E1, E3. subst i. exists c. auto.
+    + intros [c [Hc Hm]].
+      assert (HL : located (lookup_groups 0 cs []) p (i, j)).
+      { apply SL. right. exists i, c. simpl. auto. }
+      destruct HL as [locs [H1 H2]]. exists locs. split; [apply lookup_find_In; assumption|assumption].
+Qed.
+
+(* what the oracle contract gives *)
+Lemma forallb_In {A} (f : A -> bool) l : forallb f l = true -> forall x, In x l -> f x = true.
+Proof. intros H x Hx. rewrite forallb_forall in H. auto. Qed.
+
+Lemma contract_facts obs o :
+  grouping_contract obs o = true ->
+  (forall p, In p obs -> In p (concat (o_groups o))) /\
+  (forall p, In p (concat (o_groups o)) -> In p obs) /\
+  (forall g, In g (o_groups o) -> g <> [] /\ pairwise_compatible g) /\
+  (forall p, In p (o_unique o) -> count_pauli p (concat (o_groups o)) = 1) /\
+  (exists n, forall p, In p obs -> length (plets p) = n).
+Proof.
+  unfold grouping_contract. repeat rewrite andb_true_iff.
+  intros [[[[[[[[[W1 W2] C1] C2] C3] C4] C5] C6] C7] C8].
+  assert (F1 : forall p, In p obs -> In p (o_unique o)).
+  { intros p Hp. apply mem_pauli_In. apply (forallb_In _ _ C1 p Hp). }
+  assert (F2 : forall p, In p (o_unique o) -> In p obs).
+  { intros p Hp. apply mem_pauli_In. apply (forallb_In _ _ C2 p Hp). }
+  assert (F3 : forall p, In p (o_unique o) -> count_pauli p (concat (o_groups o)) = 1).
+  { intros p Hp. apply Nat.eqb_eq. apply (forallb_In _ _ C5 p Hp). }
+  split; [|split; [|split; [|split]]].
+  - intros p Hp. apply count_pauli_pos. rewrite (F3 p (F1 p Hp)). discriminate.
+  - intros p Hp. apply F2. apply mem_pauli_In. apply (forallb_In _ _ C6 p Hp).
+  - intros g Hg. split.
+    + pose proof (forallb_In _ _ C7 g Hg) as H. intros E. subst g. discriminate.
+    + pose proof (forallb_In _ _ C8 g Hg) as H. clear - H.
+      induction g as [|p r IH]; intros a b i Ha Hb; [contradiction|].
+      simpl in H. apply andb_prop in H as [H1 H2].
+      assert (PR : forall q, In q r -> compat_at (plets p) (plets q) i).
+      { intros q Hq. apply letters_compat_spec. apply (forallb_In _ _ H1 q Hq). }
+      destruct Ha as [<-|Ha], Hb as [<-|Hb].
+      * unfold compat_at. right; right; reflexivity.
+      * apply PR; assumption.
+      * specialize (PR a Ha). unfold compat_at in *. intuition.
+      * apply IH; assumption.
+  - assumption.
+  - eexists. intros p Hp. apply Nat.eqb_eq. apply (forallb_In _ _ W1 p Hp).
+Qed.
+
+Lemma In_concat_nth {A} (p : A) : forall gs, In p (concat gs) ->
+  exists i g j, nth_error gs i = Some g /\ nth_error g j = Some p.
+Proof.
+  induction gs as [|g r IH]; simpl; [intros []|].
+  intros H. apply in_app_or in H as [H|H].
+  - apply In_nth_error in H as [j Hj]. exists 0, g, j. auto.
+  - destruct (IH H) as [i [g' [j [H1 H2]]]]. exists (S i), g', j. auto.
+Qed.
+
+(* cover *)
+Lemma collection_cover obs o cogs lk :
+  collection obs o = Ok (cogs, lk) -> grouping_contract obs o = true ->
+  forall p, In p obs ->
+    exists locs, lookup_find p lk = Some locs /\ locs <> [] /\
+      forall i j, In (i, j) locs ->
+        exists c, nth_error cogs i = Some c /\ nth_error (cg_members c) j = Some p.
+Proof.
+  intros HC HK p Hp.
+  destruct (collection_spec _ _ _ _ HC) as (_ & M1 & _ & ND & NE & LOC).
+  destruct (contract_facts _ _ HK) as (F1 & _).
+  destruct (In_concat_nth p _ (F1 p Hp)) as [i [g [j [Hi Hj]]]].
+  rewrite <- M1, nth_error_map in Hi.
+  destruct (nth_error cogs i) as [c|] eqn:Ec; simpl in Hi; [|discriminate]. inversion Hi; subst g.
+  destruct (proj2 (LOC p i j)) as [locs [Hf Hin]]; [exists c; auto|].
+  exists locs. split; [assumption|]. split; [apply (NE p locs Hf)|].
+  intros i' j' Hin'. apply LOC. exists locs. auto.
+Qed.
+
+(* totality: phase-free input + oracle contract => the collection is built *)
+Lemma generals_loop_total : forall groups,
+  (forall g, In g groups -> exists p, most_general_observable g None = Ok p) ->
+  exists gens, generals_loop groups = Ok gens.
+Proof.
+  induction groups as [|g r IH]; intros H; simpl; [eexists; reflexivity|].
+  destruct (H g (or_introl eq_refl)) as [p Ep]. rewrite Ep; simpl.
+  destruct IH as [ps Eps]. { intros x Hx; apply H; now right. }
+  rewrite Eps; simpl. eexists; reflexivity.
+Qed.
+
+Lemma cogs_loop_total : forall gens groups,
+  length gens = length groups ->
+  (forall i p g, nth_error gens i = Some p -> nth_error groups i = Some g ->
+     exists im, cog_post_init p g = Ok im) ->
+  exists cogs, cogs_loop gens groups = Ok cogs.
+Proof.
+  induction gens as [|p pr IH]; intros [|g gr] L H; simpl in *; try discriminate; try (eexists; reflexivity).
+  destruct (H 0 p g eq_refl eq_refl) as [im Eim]. unfold make_cog. rewrite Eim; simpl.
+  destruct (IH gr) as [cs Ecs]; [lia| |].
+  - intros i p' g' H1 H2. apply (H (S i) p' g' H1 H2).
+  - rewrite Ecs; simpl. eexists; reflexivity.
+Qed.
+
+Lemma collection_total obs o :
+  obs <> [] -> (forall p, In p obs -> pphase p = 0) -> grouping_contract obs o = true ->
+  exists cogs lk, collection obs o = Ok (cogs, lk).
+Proof.
+  intros NE PH HK.
+  destruct (contract_facts _ _ HK) as (_ & F2 & F3 & _ & [n W]).
+  assert (MG : forall g, In g (o_groups o) -> exists p, most_general_observable g None = Ok p).
+  { intros g Hg. destruct (F3 g Hg) as [Gne Gpw]. apply mgo_total; auto.
+    intros m Hm. unfold mgo_width. destruct g as [|f r]; [congruence|].
+    assert (Hf : In f obs) by (apply F2; apply in_concat; exists (f :: r); split; [assumption|now left]).
+    assert (Hm' : In m obs) by (apply F2; apply in_concat; exists (f :: r); split; assumption).
+    rewrite (W f Hf), (W m Hm'). reflexivity. }
+  destruct (generals_loop_total _ MG) as [gens Eg].
+  destruct (generals_loop_spec _ _ Eg) as [Lg Sg].
+  destruct (cogs_loop_total gens (o_groups o) Lg) as [cs Ec].
+  { intros i p g Hp Hg. destruct (Sg i g Hg) as [p' [Hp' Hm]].
+    assert (p' = p) by congruence. subst p'.
+    destruct (mgo_sound _ _ _ Hm) as (_ & _ & Lp & Wm & _).
+    destruct (cog_post_init_total p g) as [ix [mk E]].
+    - intros m Hm'. split.
+      + apply PH. apply F2. apply in_concat. exists g. split; [eapply nth_error_In; eassumption|assumption].
+      + rewrite Lp. apply Wm; assumption.
+    - eexists; eassumption. }
+  unfold collection. destruct obs as [|o1 orest]; [congruence|].
+  rewrite Eg; simpl. rewrite Ec; simpl. eexists; eexists; reflexivity.
 Qed.
